@@ -1,0 +1,32 @@
+//go:build verif
+
+package shovel
+
+// Observation hooks for the verification harness in /verif.
+// Compiled only with -tags verif.
+
+type VerifTaskInfo struct {
+	SrcName     string
+	ChainID     uint64
+	IGName      string
+	Start, Stop uint64
+	BatchSize   int
+	Concurrency int
+}
+
+// VerifTasks reports the tasks of the generation that was loaded last.
+func (tm *Manager) VerifTasks() []VerifTaskInfo {
+	var res []VerifTaskInfo
+	for _, t := range tm.tasks {
+		res = append(res, VerifTaskInfo{
+			SrcName:     t.srcName,
+			ChainID:     t.srcChainID,
+			IGName:      t.destConfig.Name,
+			Start:       t.start,
+			Stop:        t.stop,
+			BatchSize:   t.batchSize,
+			Concurrency: t.concurrency,
+		})
+	}
+	return res
+}
